@@ -549,7 +549,12 @@ func (m *Reg) genesisPairs(t *rapid.T) {
 		case "upper":
 			spelled = "0x" + strings.ToUpper(spelled[2:])
 		}
-		gs.TokenPairs = append(gs.TokenPairs, aggtypes.TokenPair{ERC20Address: spelled, Denoms: []string{aggtypes.CreateDenom(tok.Addr.Hex())},
+		denoms := []string{aggtypes.CreateDenom(tok.Addr.Hex())}
+		if rapid.Bool().Draw(t, "genesisPairs.secondDenom") {
+			// a pair that had a further denomination added (AddCoin) before the genesis was exported
+			denoms = append(denoms, CoinDenoms[len(CoinDenoms)-1-i])
+		}
+		gs.TokenPairs = append(gs.TokenPairs, aggtypes.TokenPair{ERC20Address: spelled, Denoms: denoms,
 			Enabled: rapid.IntRange(0, 3).Draw(t, "genesisPairs.enabled") != 0, ContractOwner: aggtypes.OWNER_EXTERNAL})
 		m.logf("genesis pair %s -> %s", spelled, gs.TokenPairs[i].Denoms[0])
 	}
